@@ -102,9 +102,6 @@ void UKFCorrection::correctStep(const GaussianMixture& pred_state, GaussianMixtu
         return;
     }
 
-    /* Extract measurement size. */
-    std::size_t meas_size = model.getMeasurementDescription().total_size();
-
     /* Evaluate the joint state-measurement statistics, if possible. */
     bool valid = false;
     MatrixXd Pxy;
@@ -157,7 +154,9 @@ void UKFCorrection::correctStep(const GaussianMixture& pred_state, GaussianMixtu
     {
         /* Evaluate the Kalman Gain
            K = Pxy * (Py)^{-1} */
-        MatrixXd K = Pxy.middleCols(meas_size * i, meas_size) * predicted_meas_.covariance(i).inverse();
+        /* The cross covariance of the i-th component is as wide as the measurement covariance. */
+        const std::size_t meas_cov_size = predicted_meas_.dim_covariance;
+        MatrixXd K = Pxy.middleCols(meas_cov_size * i, meas_cov_size) * predicted_meas_.covariance(i).inverse();
 
         /* Evaluate the filtered mean.
            x_{k}+ = x{k}- + K * innovation */
